@@ -1023,6 +1023,15 @@ def run_case(rec, seed, k, i, tier, force=None):
             start = dict(cfg, signal=old)
             case['signal_before_setter'] = old
             F = construct(start, 0)
+            # Half of the histories pass through the third signal value first
+            # (e.g. -1 -> 0 -> +1): the transform arguments must follow every
+            # assignment, not only those that change the sign group.
+            mid = [s_ for s_ in (-1, 0, 1) if s_ not in (old, cfg['signal'])]
+            if mid and r.random() < 0.5 and \
+                    sanitize_td(cfg['td'], mid[0]) == cfg['td']:
+                case['signal_via'] = mid[0]
+                F.signal = mid[0]
+                rec.event('signal_setter_two_step_histories')
             F.signal = cfg['signal']
         else:
             F = construct(cfg, int(gen.choice(r, [0, 0, 1, 3])))
